@@ -41,7 +41,7 @@ def run(tier, seed, rep):
             for mask in itertools.product([0, 1], repeat=n):
                 if all(mask):
                     continue
-                defs.append(IG.table_def(did, mask, IG.IDS if did % 3 else idents2))
+                defs.append(IG.table_def(did, mask, IG.ids_for(did) if did % 3 else idents2))
                 did += 1
         by_id = {E["id"]: E for E in defs}
         files = {}
